@@ -200,6 +200,12 @@ class Parser:
 
     def comparison(self):
         a = self.operand()
+        neg = self.accept('NOT', 'IN')
+        if neg or self.accept('IN'):
+            self.eat('(')
+            sub = self.select()
+            self.eat(')')
+            return ('notin' if neg else 'in', a, sub)
         op = self.t[self.i]
         if op not in ('=', '==', '>=', '<=', '>', '<', '<>', '!='):
             raise SqlShimError(f"comparison operator expected in {self.sql!r}, got {op}")
@@ -408,6 +414,14 @@ class Cursor:
 
     def holds(self, conds, env, params=None):
         for op, a, b in conds:
+            if op in ('in', 'notin'):
+                va = self.value(a, env, [])
+                if len(b[1]) != 1:
+                    raise SqlShimError("sub-select of IN must return one column")
+                member = va is not None and any(r[0] is not None and truthy(compare('=', va, r[0])) for r in self.run_select(b, []))
+                if member != (op == 'in'):
+                    return False
+                continue
             va, vb = self.value(a, env, []), self.value(b, env, [])
             if not truthy(compare(op, va, vb)):
                 return False
@@ -419,6 +433,9 @@ class Cursor:
         out = []
         for op, a, b in conds:
             a2 = ('const', params.pop(0)) if a[0] == 'param' else a
+            if op in ('in', 'notin'):
+                out.append((op, a2, b))         # parameters inside the sub-select are not modelled (run_select reports unused ones)
+                continue
             b2 = ('const', params.pop(0)) if b[0] == 'param' else b
             out.append((op, a2, b2))
         return out
